@@ -12,8 +12,8 @@ tolerance"); that clause is part of the documented predicate (`NearSingular`).  
 and (G, M) the corresponding band lies inside the non-PD region and needs no clause (proved).
 For the pair (E, M) two materials can share the values; the code accepts iff one exists.
 
-Theorems `mod<XY>_accepts_iff`: `BlakeMod<XY>.outcome p = .ok ↔ DocumentedPair …`, both directions, all reals.
-(Every other path raises `ValueError`: `EPV.C15.mod<XY>_raise`.)
+Theorems `mod<XY>_accepts_iff`: `BlakeMod<XY>.outcome p = .ok ↔ DocumentedPair …`, both directions, all reals
+(proofs in `EPV/Lemmas/BlakeAccept.lean`).  Every other path raises `ValueError`: `EPV.C15.mod<XY>_raise`.
 -/
 import EPV.Gen.BlakeModLG
 import EPV.Gen.BlakeModLE
@@ -33,6 +33,8 @@ import EPV.Gen.BlakeModKM
 import EPV.Spec.Blake
 import EPV.Lemmas.Blake
 import EPV.Lemmas.BlakeModuli
+import EPV.Lemmas.BlakeFields
+import EPV.Lemmas.BlakeAccept
 import EPV.Tactics
 
 set_option linter.all false
@@ -41,575 +43,84 @@ open EPV EPV.Gen EPV.Spec.Blake EPV.Blake
 
 namespace EPV.C20
 
-theorem modLG_given (p : BlakeModLG.P) (h : BlakeModLG.outcome p = .ok) :
-    Kind.GivenOk .lame p.lame_mod ∧ Kind.GivenOk .shear p.shear_mod := by
-  epv_on_leaves (
-    simp only [epv_cond] at *
-    simp only [Kind.GivenOk]
-    refine ⟨?_, ?_⟩ <;> first | linarith | exact ⟨by linarith, by linarith⟩)
-
+/-- pair (λ, G): `set_elastic_params` **accepts ⇔ the pair is documented-valid** -/
 theorem modLG_accepts_iff (p : BlakeModLG.P) :
-    BlakeModLG.outcome p = .ok ↔ DocumentedPair .lame .shear p.lame_mod p.shear_mod := by
-  constructor
-  · intro h
-    obtain ⟨m, e1, e2⟩ := EPV.Blake.modLG_ok p h
-    obtain ⟨g1, g2⟩ := modLG_given p h
-    refine ⟨g1, g2, _, _, m.shear_pos, m.bulk_pos, ?_, ?_⟩
-    · rw [← e1]; exact m.kind_of.1
-    · rw [← e2]; exact m.kind_of.2.1
-  · rintro ⟨hx, hy, L, G, hG, hB, h1, h2⟩
-    simp only [Kind.of, Kind.GivenOk] at hx hy h1 h2
-    have hLG : 0 < L + G := by linarith
-    have hc0 : ¬ BlakeModLG.c0 p := by simp only [epv_cond]; linarith
-    have hc1 : ¬ BlakeModLG.c1 p := by simp only [epv_cond]; linarith
-    have hc2 : BlakeModLG.c2 p := by simp only [epv_cond]; linarith
-    have hc3 : BlakeModLG.c3 p := by simp only [epv_cond]; linarith
-    simp only [epv_tree, hc0, hc1, hc2, hc3, if_true, if_false, ite_self]
+    BlakeModLG.outcome p = .ok ↔ DocumentedPair .lame .shear p.lame_mod p.shear_mod :=
+  EPV.Blake.modLG_accepts_iff p
 
-theorem modLE_given (p : BlakeModLE.P) (h : BlakeModLE.outcome p = .ok) :
-    Kind.GivenOk .lame p.lame_mod ∧ Kind.GivenOk .youngs p.youngs_mod := by
-  epv_on_leaves (
-    simp only [epv_cond] at *
-    simp only [Kind.GivenOk]
-    refine ⟨?_, ?_⟩ <;> first | linarith | exact ⟨by linarith, by linarith⟩)
-
+/-- pair (λ, E): `set_elastic_params` **accepts ⇔ the pair is documented-valid** -/
 theorem modLE_accepts_iff (p : BlakeModLE.P) :
-    BlakeModLE.outcome p = .ok ↔ DocumentedPair .lame .youngs p.lame_mod p.youngs_mod := by
-  constructor
-  · intro h
-    obtain ⟨m, e1, e2⟩ := EPV.Blake.modLE_ok p h
-    obtain ⟨g1, g2⟩ := modLE_given p h
-    refine ⟨g1, g2, _, _, m.shear_pos, m.bulk_pos, ?_, ?_⟩
-    · rw [← e1]; exact m.kind_of.1
-    · rw [← e2]; exact m.kind_of.2.2.1
-  · rintro ⟨hx, hy, L, G, hG, hB, h1, h2⟩
-    simp only [Kind.of, Kind.GivenOk] at hx hy h1 h2
-    have hLG : 0 < L + G := by linarith
-    have hE : p.youngs_mod * (L + G) = G * (3 * L + 2 * G) := by rw [← h2]; field_simp
-    have e : (4 * G + 3 * L - p.youngs_mod) * (L + G) = 2 * (L + G) ^ 2 + L ^ 2 := by linear_combination (-1 : ℝ) * hE
-    have hpos : 0 < 4 * G + 3 * L - p.youngs_mod := (mul_pos_iff_of_pos_right hLG).mp (e ▸ by positivity)
-    have hR : (p.youngs_mod ^ (2 : ℕ) + 9 * p.lame_mod ^ (2 : ℕ) + 2 * p.youngs_mod * p.lame_mod) ^ ((1 : ℝ) / 2)
-        = 4 * G + 3 * L - p.youngs_mod :=
-      rpow_half_eq hpos.le (by rw [← h1]; linear_combination (-8 : ℝ) * hE)
-    have hc0 : ¬ BlakeModLE.c0 p := by
-      simp only [epv_cond]
-      linarith
-    have hc1 : ¬ BlakeModLE.c1 p := by
-      simp only [epv_cond]
-      linarith
-    have hc2 : BlakeModLE.c2 p := by
-      simp only [epv_cond]
-      rw [hR]; linarith
-    have hc3 : BlakeModLE.c3 p := by
-      simp only [epv_cond]
-      rw [hR]; linarith
-    simp only [epv_tree, hc0, hc1, hc2, hc3, if_true, if_false, ite_self]
+    BlakeModLE.outcome p = .ok ↔ DocumentedPair .lame .youngs p.lame_mod p.youngs_mod :=
+  EPV.Blake.modLE_accepts_iff p
 
-theorem modLNu_given (p : BlakeModLNu.P) (h : BlakeModLNu.outcome p = .ok) :
-    Kind.GivenOk .lame p.lame_mod ∧ Kind.GivenOk .poisson p.poisson_ratio := by
-  epv_on_leaves (
-    simp only [epv_cond] at *
-    simp only [Kind.GivenOk]
-    refine ⟨?_, ?_⟩ <;> first | linarith | exact ⟨by linarith, by linarith⟩)
-
+/-- pair (λ, ν): `set_elastic_params` **accepts ⇔ the pair is documented-valid** -/
 theorem modLNu_accepts_iff (p : BlakeModLNu.P) :
-    BlakeModLNu.outcome p = .ok ↔ DocumentedPair .lame .poisson p.lame_mod p.poisson_ratio := by
-  constructor
-  · intro h
-    obtain ⟨m, e1, e2⟩ := EPV.Blake.modLNu_ok p h
-    obtain ⟨g1, g2⟩ := modLNu_given p h
-    refine ⟨g1, g2, _, _, m.shear_pos, m.bulk_pos, ?_, ?_⟩
-    · rw [← e1]; exact m.kind_of.1
-    · rw [← e2]; exact m.kind_of.2.2.2.1
-  · rintro ⟨hx, hy, L, G, hG, hB, h1, h2⟩
-    simp only [Kind.of, Kind.GivenOk] at hx hy h1 h2
-    have hLG : 0 < L + G := by linarith
-    have hν : p.poisson_ratio * (2 * (L + G)) = L := by rw [← h2]; field_simp
-    have hνpos : 0 < p.poisson_ratio := by rw [← h2]; have : 0 < L := by linarith
-                                           positivity
-    have e : p.lame_mod * (1 - 2 * p.poisson_ratio) / (2 * p.poisson_ratio) = G := by
-      rw [div_eq_iff (by positivity), ← h1]; linear_combination (-1 : ℝ) * hν
-    have hc0 : ¬ BlakeModLNu.c0 p := by
-      simp only [epv_cond]
-      linarith
-    have hc1 : BlakeModLNu.c1 p := by
-      simp only [epv_cond]
-      exact hy.1
-    have hc2 : BlakeModLNu.c2 p := by
-      simp only [epv_cond]
-      exact hy.2
-    have hc3 : BlakeModLNu.c3 p := by
-      simp only [epv_cond]
-      rw [e]; exact hG
-    have hc4 : BlakeModLNu.c4 p := by
-      simp only [epv_cond]
-      rw [e]; linarith
-    simp only [epv_tree, hc0, hc1, hc2, hc3, hc4, if_true, if_false, ite_self]
+    BlakeModLNu.outcome p = .ok ↔ DocumentedPair .lame .poisson p.lame_mod p.poisson_ratio :=
+  EPV.Blake.modLNu_accepts_iff p
 
-theorem modLK_given (p : BlakeModLK.P) (h : BlakeModLK.outcome p = .ok) :
-    Kind.GivenOk .lame p.lame_mod ∧ Kind.GivenOk .bulk p.bulk_mod := by
-  epv_on_leaves (
-    simp only [epv_cond] at *
-    simp only [Kind.GivenOk]
-    refine ⟨?_, ?_⟩ <;> first | linarith | exact ⟨by linarith, by linarith⟩)
-
+/-- pair (λ, K): `set_elastic_params` **accepts ⇔ the pair is documented-valid** -/
 theorem modLK_accepts_iff (p : BlakeModLK.P) :
-    BlakeModLK.outcome p = .ok ↔ DocumentedPair .lame .bulk p.lame_mod p.bulk_mod := by
-  constructor
-  · intro h
-    obtain ⟨m, e1, e2⟩ := EPV.Blake.modLK_ok p h
-    obtain ⟨g1, g2⟩ := modLK_given p h
-    refine ⟨g1, g2, _, _, m.shear_pos, m.bulk_pos, ?_, ?_⟩
-    · rw [← e1]; exact m.kind_of.1
-    · rw [← e2]; exact m.kind_of.2.2.2.2.1
-  · rintro ⟨hx, hy, L, G, hG, hB, h1, h2⟩
-    simp only [Kind.of, Kind.GivenOk] at hx hy h1 h2
-    have hLG : 0 < L + G := by linarith
-    have hc0 : ¬ BlakeModLK.c0 p := by
-      simp only [epv_cond]
-      linarith
-    have hc1 : ¬ BlakeModLK.c1 p := by
-      simp only [epv_cond]
-      linarith
-    have hc2 : ¬ BlakeModLK.c2 p := by
-      simp only [epv_cond]
-      rw [← h1, ← h2, abs_of_neg (by linarith), abs_of_pos (by linarith)]
-      linarith
-    have hc4 : BlakeModLK.c4 p := by
-      simp only [epv_cond]
-      linarith
-    have hc5 : BlakeModLK.c5 p := by
-      simp only [epv_cond]
-      linarith
-    simp only [epv_tree, hc0, hc1, hc2, hc4, hc5, if_true, if_false, ite_self]
+    BlakeModLK.outcome p = .ok ↔ DocumentedPair .lame .bulk p.lame_mod p.bulk_mod :=
+  EPV.Blake.modLK_accepts_iff p
 
-theorem modLM_given (p : BlakeModLM.P) (h : BlakeModLM.outcome p = .ok) :
-    Kind.GivenOk .lame p.lame_mod ∧ Kind.GivenOk .long p.long_mod := by
-  epv_on_leaves (
-    simp only [epv_cond] at *
-    simp only [Kind.GivenOk]
-    refine ⟨?_, ?_⟩ <;> first | linarith | exact ⟨by linarith, by linarith⟩)
-
+/-- pair (λ, M): `set_elastic_params` **accepts ⇔ the pair is documented-valid** -/
 theorem modLM_accepts_iff (p : BlakeModLM.P) :
-    BlakeModLM.outcome p = .ok ↔ DocumentedPair .lame .long p.lame_mod p.long_mod := by
-  constructor
-  · intro h
-    obtain ⟨m, e1, e2⟩ := EPV.Blake.modLM_ok p h
-    obtain ⟨g1, g2⟩ := modLM_given p h
-    refine ⟨g1, g2, _, _, m.shear_pos, m.bulk_pos, ?_, ?_⟩
-    · rw [← e1]; exact m.kind_of.1
-    · rw [← e2]; exact m.kind_of.2.2.2.2.2
-  · rintro ⟨hx, hy, L, G, hG, hB, h1, h2⟩
-    simp only [Kind.of, Kind.GivenOk] at hx hy h1 h2
-    have hLG : 0 < L + G := by linarith
-    have hc0 : ¬ BlakeModLM.c0 p := by
-      simp only [epv_cond]
-      linarith
-    have hc1 : ¬ BlakeModLM.c1 p := by
-      simp only [epv_cond]
-      linarith
-    have hc2 : BlakeModLM.c2 p := by
-      simp only [epv_cond]
-      linarith
-    have hc3 : BlakeModLM.c3 p := by
-      simp only [epv_cond]
-      linarith
-    simp only [epv_tree, hc0, hc1, hc2, hc3, if_true, if_false, ite_self]
+    BlakeModLM.outcome p = .ok ↔ DocumentedPair .lame .long p.lame_mod p.long_mod :=
+  EPV.Blake.modLM_accepts_iff p
 
-theorem modGE_given (p : BlakeModGE.P) (h : BlakeModGE.outcome p = .ok) :
-    Kind.GivenOk .shear p.shear_mod ∧ Kind.GivenOk .youngs p.youngs_mod := by
-  epv_on_leaves (
-    simp only [epv_cond] at *
-    simp only [Kind.GivenOk]
-    refine ⟨?_, ?_⟩ <;> first | linarith | exact ⟨by linarith, by linarith⟩)
-
+/-- pair (G, E): `set_elastic_params` **accepts ⇔ the pair is documented-valid** -/
 theorem modGE_accepts_iff (p : BlakeModGE.P) :
-    BlakeModGE.outcome p = .ok ↔ DocumentedPair .shear .youngs p.shear_mod p.youngs_mod ∧ ¬ NearSingular p.youngs_mod (3 * p.shear_mod) := by
-  constructor
-  · intro h
-    obtain ⟨m, e1, e2⟩ := EPV.Blake.modGE_ok p h
-    obtain ⟨g1, g2⟩ := modGE_given p h
-    refine ⟨⟨g1, g2, _, _, m.shear_pos, m.bulk_pos, ?_, ?_⟩, ?_⟩
-    · rw [← e1]; exact m.kind_of.2.1
-    · rw [← e2]; exact m.kind_of.2.2.1
-    · -- the near-singular band is rejected
-      clear m e1 e2
-      epv_on_leaves (simp only [epv_cond] at *; simp only [NearSingular, reltol]; assumption)
-  · rintro ⟨⟨hx, hy, L, G, hG, hB, h1, h2⟩, hband⟩
-    simp only [Kind.of, Kind.GivenOk] at hx hy h1 h2
-    have hLG : 0 < L + G := by linarith
-    have hE : p.youngs_mod * (L + G) = G * (3 * L + 2 * G) := by rw [← h2]; field_simp
-    have e : (3 * G - p.youngs_mod) * (L + G) = G ^ 2 := by linear_combination (-1 : ℝ) * hE
-    have hlt : 0 < 3 * G - p.youngs_mod := (mul_pos_iff_of_pos_right hLG).mp (e ▸ by positivity)
-    have hq : 0 < p.youngs_mod / (2 * p.shear_mod) := by positivity
-    have hq2 : p.youngs_mod / (2 * p.shear_mod) < 3 / 2 := by
-      rw [div_lt_iff₀ (by positivity)]; linarith
-    have hc0 : ¬ BlakeModGE.c0 p := by
-      simp only [epv_cond]
-      linarith
-    have hc1 : ¬ BlakeModGE.c1 p := by
-      simp only [epv_cond]
-      linarith
-    have hc2 : ¬ BlakeModGE.c2 p := by
-      simp only [epv_cond]
-      simpa only [NearSingular, reltol] using hband
-    have hc4 : BlakeModGE.c4 p := by
-      simp only [epv_cond]
-      linarith
-    have hc5 : BlakeModGE.c5 p := by
-      simp only [epv_cond]
-      linarith
-    have hc6 : BlakeModGE.c6 p := by
-      simp only [epv_cond]
-      linarith
-    simp only [epv_tree, hc0, hc1, hc2, hc4, hc5, hc6, if_true, if_false, ite_self]
+    BlakeModGE.outcome p = .ok ↔ DocumentedPair .shear .youngs p.shear_mod p.youngs_mod ∧ ¬ NearSingular p.youngs_mod (3 * p.shear_mod) :=
+  EPV.Blake.modGE_accepts_iff p
 
-theorem modGNu_given (p : BlakeModGNu.P) (h : BlakeModGNu.outcome p = .ok) :
-    Kind.GivenOk .shear p.shear_mod ∧ Kind.GivenOk .poisson p.poisson_ratio := by
-  epv_on_leaves (
-    simp only [epv_cond] at *
-    simp only [Kind.GivenOk]
-    refine ⟨?_, ?_⟩ <;> first | linarith | exact ⟨by linarith, by linarith⟩)
-
+/-- pair (G, ν): `set_elastic_params` **accepts ⇔ the pair is documented-valid** -/
 theorem modGNu_accepts_iff (p : BlakeModGNu.P) :
-    BlakeModGNu.outcome p = .ok ↔ DocumentedPair .shear .poisson p.shear_mod p.poisson_ratio := by
-  constructor
-  · intro h
-    obtain ⟨m, e1, e2⟩ := EPV.Blake.modGNu_ok p h
-    obtain ⟨g1, g2⟩ := modGNu_given p h
-    refine ⟨g1, g2, _, _, m.shear_pos, m.bulk_pos, ?_, ?_⟩
-    · rw [← e1]; exact m.kind_of.2.1
-    · rw [← e2]; exact m.kind_of.2.2.2.1
-  · rintro ⟨hx, hy, L, G, hG, hB, h1, h2⟩
-    simp only [Kind.of, Kind.GivenOk] at hx hy h1 h2
-    have hLG : 0 < L + G := by linarith
-    have hc0 : ¬ BlakeModGNu.c0 p := by
-      simp only [epv_cond]
-      linarith
-    have hc1 : BlakeModGNu.c1 p := by
-      simp only [epv_cond]
-      exact hy.1
-    have hc2 : BlakeModGNu.c2 p := by
-      simp only [epv_cond]
-      exact hy.2
-    have hc3 : BlakeModGNu.c3 p := by
-      simp only [epv_cond]
-      linarith
-    simp only [epv_tree, hc0, hc1, hc2, hc3, if_true, if_false, ite_self]
+    BlakeModGNu.outcome p = .ok ↔ DocumentedPair .shear .poisson p.shear_mod p.poisson_ratio :=
+  EPV.Blake.modGNu_accepts_iff p
 
-theorem modGK_given (p : BlakeModGK.P) (h : BlakeModGK.outcome p = .ok) :
-    Kind.GivenOk .shear p.shear_mod ∧ Kind.GivenOk .bulk p.bulk_mod := by
-  epv_on_leaves (
-    simp only [epv_cond] at *
-    simp only [Kind.GivenOk]
-    refine ⟨?_, ?_⟩ <;> first | linarith | exact ⟨by linarith, by linarith⟩)
-
+/-- pair (G, K): `set_elastic_params` **accepts ⇔ the pair is documented-valid** -/
 theorem modGK_accepts_iff (p : BlakeModGK.P) :
-    BlakeModGK.outcome p = .ok ↔ DocumentedPair .shear .bulk p.shear_mod p.bulk_mod := by
-  constructor
-  · intro h
-    obtain ⟨m, e1, e2⟩ := EPV.Blake.modGK_ok p h
-    obtain ⟨g1, g2⟩ := modGK_given p h
-    refine ⟨g1, g2, _, _, m.shear_pos, m.bulk_pos, ?_, ?_⟩
-    · rw [← e1]; exact m.kind_of.2.1
-    · rw [← e2]; exact m.kind_of.2.2.2.2.1
-  · rintro ⟨hx, hy, L, G, hG, hB, h1, h2⟩
-    simp only [Kind.of, Kind.GivenOk] at hx hy h1 h2
-    have hLG : 0 < L + G := by linarith
-    have hc0 : ¬ BlakeModGK.c0 p := by
-      simp only [epv_cond]
-      linarith
-    have hc1 : ¬ BlakeModGK.c1 p := by
-      simp only [epv_cond]
-      linarith
-    have hc3 : BlakeModGK.c3 p := by
-      simp only [epv_cond]
-      linarith
-    have hc4 : BlakeModGK.c4 p := by
-      simp only [epv_cond]
-      linarith
-    simp only [epv_tree, hc0, hc1, hc3, hc4, if_true, if_false, ite_self]
+    BlakeModGK.outcome p = .ok ↔ DocumentedPair .shear .bulk p.shear_mod p.bulk_mod :=
+  EPV.Blake.modGK_accepts_iff p
 
-theorem modGM_given (p : BlakeModGM.P) (h : BlakeModGM.outcome p = .ok) :
-    Kind.GivenOk .shear p.shear_mod ∧ Kind.GivenOk .long p.long_mod := by
-  epv_on_leaves (
-    simp only [epv_cond] at *
-    simp only [Kind.GivenOk]
-    refine ⟨?_, ?_⟩ <;> first | linarith | exact ⟨by linarith, by linarith⟩)
-
+/-- pair (G, M): `set_elastic_params` **accepts ⇔ the pair is documented-valid** -/
 theorem modGM_accepts_iff (p : BlakeModGM.P) :
-    BlakeModGM.outcome p = .ok ↔ DocumentedPair .shear .long p.shear_mod p.long_mod := by
-  constructor
-  · intro h
-    obtain ⟨m, e1, e2⟩ := EPV.Blake.modGM_ok p h
-    obtain ⟨g1, g2⟩ := modGM_given p h
-    refine ⟨g1, g2, _, _, m.shear_pos, m.bulk_pos, ?_, ?_⟩
-    · rw [← e1]; exact m.kind_of.2.1
-    · rw [← e2]; exact m.kind_of.2.2.2.2.2
-  · rintro ⟨hx, hy, L, G, hG, hB, h1, h2⟩
-    simp only [Kind.of, Kind.GivenOk] at hx hy h1 h2
-    have hLG : 0 < L + G := by linarith
-    have hc0 : ¬ BlakeModGM.c0 p := by
-      simp only [epv_cond]
-      linarith
-    have hc1 : ¬ BlakeModGM.c1 p := by
-      simp only [epv_cond]
-      linarith
-    have hc2 : ¬ BlakeModGM.c2 p := by
-      simp only [epv_cond]
-      rw [← h1, ← h2, abs_of_pos (by linarith), abs_of_pos hG]
-      linarith
-    have hc4 : BlakeModGM.c4 p := by
-      simp only [epv_cond]
-      linarith
-    have hc5 : BlakeModGM.c5 p := by
-      simp only [epv_cond]
-      rw [lt_div_iff₀ (by linarith)]
-      linarith
-    have hc6 : BlakeModGM.c6 p := by
-      simp only [epv_cond]
-      rw [div_lt_iff₀ (by linarith)]
-      linarith
-    simp only [epv_tree, hc0, hc1, hc2, hc4, hc5, hc6, if_true, if_false, ite_self]
+    BlakeModGM.outcome p = .ok ↔ DocumentedPair .shear .long p.shear_mod p.long_mod :=
+  EPV.Blake.modGM_accepts_iff p
 
-theorem modENu_given (p : BlakeModENu.P) (h : BlakeModENu.outcome p = .ok) :
-    Kind.GivenOk .youngs p.youngs_mod ∧ Kind.GivenOk .poisson p.poisson_ratio := by
-  epv_on_leaves (
-    simp only [epv_cond] at *
-    simp only [Kind.GivenOk]
-    refine ⟨?_, ?_⟩ <;> first | linarith | exact ⟨by linarith, by linarith⟩)
-
+/-- pair (E, ν): `set_elastic_params` **accepts ⇔ the pair is documented-valid** -/
 theorem modENu_accepts_iff (p : BlakeModENu.P) :
-    BlakeModENu.outcome p = .ok ↔ DocumentedPair .youngs .poisson p.youngs_mod p.poisson_ratio := by
-  constructor
-  · intro h
-    obtain ⟨m, e1, e2⟩ := EPV.Blake.modENu_ok p h
-    obtain ⟨g1, g2⟩ := modENu_given p h
-    refine ⟨g1, g2, _, _, m.shear_pos, m.bulk_pos, ?_, ?_⟩
-    · rw [← e1]; exact m.kind_of.2.2.1
-    · rw [← e2]; exact m.kind_of.2.2.2.1
-  · rintro ⟨hx, hy, L, G, hG, hB, h1, h2⟩
-    simp only [Kind.of, Kind.GivenOk] at hx hy h1 h2
-    have hLG : 0 < L + G := by linarith
-    have hc0 : ¬ BlakeModENu.c0 p := by
-      simp only [epv_cond]
-      linarith
-    have hc1 : BlakeModENu.c1 p := by
-      simp only [epv_cond]
-      exact hy.1
-    have hc2 : BlakeModENu.c2 p := by
-      simp only [epv_cond]
-      exact hy.2
-    have hc3 : BlakeModENu.c3 p := by
-      simp only [epv_cond]
-      linarith
-    simp only [epv_tree, hc0, hc1, hc2, hc3, if_true, if_false, ite_self]
+    BlakeModENu.outcome p = .ok ↔ DocumentedPair .youngs .poisson p.youngs_mod p.poisson_ratio :=
+  EPV.Blake.modENu_accepts_iff p
 
-theorem modEK_given (p : BlakeModEK.P) (h : BlakeModEK.outcome p = .ok) :
-    Kind.GivenOk .youngs p.youngs_mod ∧ Kind.GivenOk .bulk p.bulk_mod := by
-  epv_on_leaves (
-    simp only [epv_cond] at *
-    simp only [Kind.GivenOk]
-    refine ⟨?_, ?_⟩ <;> first | linarith | exact ⟨by linarith, by linarith⟩)
-
+/-- pair (E, K): `set_elastic_params` **accepts ⇔ the pair is documented-valid** -/
 theorem modEK_accepts_iff (p : BlakeModEK.P) :
-    BlakeModEK.outcome p = .ok ↔ DocumentedPair .youngs .bulk p.youngs_mod p.bulk_mod ∧ ¬ NearSingular p.youngs_mod (9 * p.bulk_mod) := by
-  constructor
-  · intro h
-    obtain ⟨m, e1, e2⟩ := EPV.Blake.modEK_ok p h
-    obtain ⟨g1, g2⟩ := modEK_given p h
-    refine ⟨⟨g1, g2, _, _, m.shear_pos, m.bulk_pos, ?_, ?_⟩, ?_⟩
-    · rw [← e1]; exact m.kind_of.2.2.1
-    · rw [← e2]; exact m.kind_of.2.2.2.2.1
-    · -- the near-singular band is rejected
-      clear m e1 e2
-      epv_on_leaves (simp only [epv_cond] at *; simp only [NearSingular, reltol]; assumption)
-  · rintro ⟨⟨hx, hy, L, G, hG, hB, h1, h2⟩, hband⟩
-    simp only [Kind.of, Kind.GivenOk] at hx hy h1 h2
-    have hLG : 0 < L + G := by linarith
-    have hE : p.youngs_mod * (L + G) = G * (3 * L + 2 * G) := by rw [← h1]; field_simp
-    have e : (9 * p.bulk_mod - p.youngs_mod) * (L + G) = (3 * L + 2 * G) ^ 2 := by
-      rw [← h2]; linear_combination (-1 : ℝ) * hE
-    have hlt : 0 < 9 * p.bulk_mod - p.youngs_mod := (mul_pos_iff_of_pos_right hLG).mp (e ▸ by positivity)
-    have hc0 : ¬ BlakeModEK.c0 p := by
-      simp only [epv_cond]
-      linarith
-    have hc1 : ¬ BlakeModEK.c1 p := by
-      simp only [epv_cond]
-      linarith
-    have hc2 : ¬ BlakeModEK.c2 p := by
-      simp only [epv_cond]
-      simpa only [NearSingular, reltol] using hband
-    have hc4 : BlakeModEK.c4 p := by
-      simp only [epv_cond]
-      linarith
-    have hc5 : BlakeModEK.c5 p := by
-      simp only [epv_cond]
-      rw [lt_div_iff₀ (by linarith)]
-      linarith
-    have hc6 : BlakeModEK.c6 p := by
-      simp only [epv_cond]
-      rw [div_lt_iff₀ (by linarith)]
-      linarith
-    simp only [epv_tree, hc0, hc1, hc2, hc4, hc5, hc6, if_true, if_false, ite_self]
+    BlakeModEK.outcome p = .ok ↔ DocumentedPair .youngs .bulk p.youngs_mod p.bulk_mod ∧ ¬ NearSingular p.youngs_mod (9 * p.bulk_mod) :=
+  EPV.Blake.modEK_accepts_iff p
 
-theorem modEM_given (p : BlakeModEM.P) (h : BlakeModEM.outcome p = .ok) :
-    Kind.GivenOk .youngs p.youngs_mod ∧ Kind.GivenOk .long p.long_mod := by
-  epv_on_leaves (
-    simp only [epv_cond] at *
-    simp only [Kind.GivenOk]
-    refine ⟨?_, ?_⟩ <;> first | linarith | exact ⟨by linarith, by linarith⟩)
-
+/-- pair (E, M): `set_elastic_params` **accepts ⇔ the pair is documented-valid** -/
 theorem modEM_accepts_iff (p : BlakeModEM.P) :
-    BlakeModEM.outcome p = .ok ↔ DocumentedPair .youngs .long p.youngs_mod p.long_mod := by
-  constructor
-  · intro h
-    obtain ⟨m, e1, e2⟩ := EPV.Blake.modEM_ok p h
-    obtain ⟨g1, g2⟩ := modEM_given p h
-    refine ⟨g1, g2, _, _, m.shear_pos, m.bulk_pos, ?_, ?_⟩
-    · rw [← e1]; exact m.kind_of.2.2.1
-    · rw [← e2]; exact m.kind_of.2.2.2.2.2
-  · rintro ⟨hx, hy, L, G, hG, hB, h1, h2⟩
-    simp only [Kind.of, Kind.GivenOk] at hx hy h1 h2
-    have hLG : 0 < L + G := by linarith
-    have hE : p.youngs_mod * (L + G) = G * (3 * L + 2 * G) := by rw [← h1]; field_simp
-    have e : (p.long_mod - p.youngs_mod) * (L + G) = L ^ 2 := by rw [← h2]; linear_combination (-1 : ℝ) * hE
-    have hle : 0 ≤ p.long_mod - p.youngs_mod := by
-      by_contra hc
-      rw [not_le] at hc
-      nlinarith [sq_nonneg L]
-    have hx2 : 0 ≤ p.youngs_mod ^ (2 : ℕ) + 9 * p.long_mod ^ (2 : ℕ) - 10 * p.youngs_mod * p.long_mod := by
-      nlinarith [mul_nonneg hle (by linarith : (0 : ℝ) ≤ 9 * p.long_mod - p.youngs_mod)]
-    have hS0 := rpow_half_nonneg (p.youngs_mod ^ (2 : ℕ) + 9 * p.long_mod ^ (2 : ℕ) - 10 * p.youngs_mod * p.long_mod)
-    have hS2 := rpow_half_mul_self hx2
-    have hSlt : (p.youngs_mod ^ (2 : ℕ) + 9 * p.long_mod ^ (2 : ℕ) - 10 * p.youngs_mod * p.long_mod) ^ ((1 : ℝ) / 2)
-        < 3 * p.long_mod - p.youngs_mod := by
-      by_contra hc
-      rw [not_lt] at hc
-      nlinarith [mul_pos hx hy]
-    have hc0 : ¬ BlakeModEM.c0 p := by
-      simp only [epv_cond]
-      linarith
-    have hc1 : ¬ BlakeModEM.c1 p := by
-      simp only [epv_cond]
-      linarith
-    have hc2 : ¬ BlakeModEM.c2 p := by
-      simp only [epv_cond]
-      linarith
-    have hc4 : BlakeModEM.c4 p := by
-      simp only [epv_cond]
-      linarith
-    have hc5 : BlakeModEM.c5 p := by
-      simp only [epv_cond]
-      rw [lt_div_iff₀ hy]
-      linarith
-    have hc6 : BlakeModEM.c6 p := by
-      simp only [epv_cond]
-      rw [div_lt_iff₀ hy]
-      linarith
-    simp only [epv_tree, hc0, hc1, hc2, hc4, hc5, hc6, if_true, if_false, ite_self]
+    BlakeModEM.outcome p = .ok ↔ DocumentedPair .youngs .long p.youngs_mod p.long_mod :=
+  EPV.Blake.modEM_accepts_iff p
 
-theorem modNuK_given (p : BlakeModNuK.P) (h : BlakeModNuK.outcome p = .ok) :
-    Kind.GivenOk .poisson p.poisson_ratio ∧ Kind.GivenOk .bulk p.bulk_mod := by
-  epv_on_leaves (
-    simp only [epv_cond] at *
-    simp only [Kind.GivenOk]
-    refine ⟨?_, ?_⟩ <;> first | linarith | exact ⟨by linarith, by linarith⟩)
-
+/-- pair (ν, K): `set_elastic_params` **accepts ⇔ the pair is documented-valid** -/
 theorem modNuK_accepts_iff (p : BlakeModNuK.P) :
-    BlakeModNuK.outcome p = .ok ↔ DocumentedPair .poisson .bulk p.poisson_ratio p.bulk_mod := by
-  constructor
-  · intro h
-    obtain ⟨m, e1, e2⟩ := EPV.Blake.modNuK_ok p h
-    obtain ⟨g1, g2⟩ := modNuK_given p h
-    refine ⟨g1, g2, _, _, m.shear_pos, m.bulk_pos, ?_, ?_⟩
-    · rw [← e1]; exact m.kind_of.2.2.2.1
-    · rw [← e2]; exact m.kind_of.2.2.2.2.1
-  · rintro ⟨hx, hy, L, G, hG, hB, h1, h2⟩
-    simp only [Kind.of, Kind.GivenOk] at hx hy h1 h2
-    have hLG : 0 < L + G := by linarith
-    have a1 : 0 < 1 - 2 * p.poisson_ratio := by linarith [hx.2]
-    have a2 : 0 < 1 + p.poisson_ratio := by linarith [hx.1]
-    have hc0 : BlakeModNuK.c0 p := by
-      simp only [epv_cond]
-      exact hx.1
-    have hc1 : BlakeModNuK.c1 p := by
-      simp only [epv_cond]
-      exact hx.2
-    have hc2 : ¬ BlakeModNuK.c2 p := by
-      simp only [epv_cond]
-      linarith
-    have hc3 : BlakeModNuK.c3 p := by
-      simp only [epv_cond]
-      positivity
-    simp only [epv_tree, hc0, hc1, hc2, hc3, if_true, if_false, ite_self]
+    BlakeModNuK.outcome p = .ok ↔ DocumentedPair .poisson .bulk p.poisson_ratio p.bulk_mod :=
+  EPV.Blake.modNuK_accepts_iff p
 
-theorem modNuM_given (p : BlakeModNuM.P) (h : BlakeModNuM.outcome p = .ok) :
-    Kind.GivenOk .poisson p.poisson_ratio ∧ Kind.GivenOk .long p.long_mod := by
-  epv_on_leaves (
-    simp only [epv_cond] at *
-    simp only [Kind.GivenOk]
-    refine ⟨?_, ?_⟩ <;> first | linarith | exact ⟨by linarith, by linarith⟩)
-
+/-- pair (ν, M): `set_elastic_params` **accepts ⇔ the pair is documented-valid** -/
 theorem modNuM_accepts_iff (p : BlakeModNuM.P) :
-    BlakeModNuM.outcome p = .ok ↔ DocumentedPair .poisson .long p.poisson_ratio p.long_mod := by
-  constructor
-  · intro h
-    obtain ⟨m, e1, e2⟩ := EPV.Blake.modNuM_ok p h
-    obtain ⟨g1, g2⟩ := modNuM_given p h
-    refine ⟨g1, g2, _, _, m.shear_pos, m.bulk_pos, ?_, ?_⟩
-    · rw [← e1]; exact m.kind_of.2.2.2.1
-    · rw [← e2]; exact m.kind_of.2.2.2.2.2
-  · rintro ⟨hx, hy, L, G, hG, hB, h1, h2⟩
-    simp only [Kind.of, Kind.GivenOk] at hx hy h1 h2
-    have hLG : 0 < L + G := by linarith
-    have a1 : 0 < 1 - 2 * p.poisson_ratio := by linarith [hx.2]
-    have a2 : 0 < 1 - p.poisson_ratio := by linarith [hx.2]
-    have hc0 : BlakeModNuM.c0 p := by
-      simp only [epv_cond]
-      exact hx.1
-    have hc1 : BlakeModNuM.c1 p := by
-      simp only [epv_cond]
-      exact hx.2
-    have hc2 : ¬ BlakeModNuM.c2 p := by
-      simp only [epv_cond]
-      linarith
-    have hc3 : BlakeModNuM.c3 p := by
-      simp only [epv_cond]
-      positivity
-    simp only [epv_tree, hc0, hc1, hc2, hc3, if_true, if_false, ite_self]
+    BlakeModNuM.outcome p = .ok ↔ DocumentedPair .poisson .long p.poisson_ratio p.long_mod :=
+  EPV.Blake.modNuM_accepts_iff p
 
-theorem modKM_given (p : BlakeModKM.P) (h : BlakeModKM.outcome p = .ok) :
-    Kind.GivenOk .bulk p.bulk_mod ∧ Kind.GivenOk .long p.long_mod := by
-  epv_on_leaves (
-    simp only [epv_cond] at *
-    simp only [Kind.GivenOk]
-    refine ⟨?_, ?_⟩ <;> first | linarith | exact ⟨by linarith, by linarith⟩)
-
+/-- pair (K, M): `set_elastic_params` **accepts ⇔ the pair is documented-valid** -/
 theorem modKM_accepts_iff (p : BlakeModKM.P) :
-    BlakeModKM.outcome p = .ok ↔ DocumentedPair .bulk .long p.bulk_mod p.long_mod := by
-  constructor
-  · intro h
-    obtain ⟨m, e1, e2⟩ := EPV.Blake.modKM_ok p h
-    obtain ⟨g1, g2⟩ := modKM_given p h
-    refine ⟨g1, g2, _, _, m.shear_pos, m.bulk_pos, ?_, ?_⟩
-    · rw [← e1]; exact m.kind_of.2.2.2.2.1
-    · rw [← e2]; exact m.kind_of.2.2.2.2.2
-  · rintro ⟨hx, hy, L, G, hG, hB, h1, h2⟩
-    simp only [Kind.of, Kind.GivenOk] at hx hy h1 h2
-    have hLG : 0 < L + G := by linarith
-    have hc0 : ¬ BlakeModKM.c0 p := by
-      simp only [epv_cond]
-      linarith
-    have hc1 : ¬ BlakeModKM.c1 p := by
-      simp only [epv_cond]
-      linarith
-    have hc2 : BlakeModKM.c2 p := by
-      simp only [epv_cond]
-      linarith
-    have hc3 : BlakeModKM.c3 p := by
-      simp only [epv_cond]
-      linarith
-    simp only [epv_tree, hc0, hc1, hc2, hc3, if_true, if_false, ite_self]
+    BlakeModKM.outcome p = .ok ↔ DocumentedPair .bulk .long p.bulk_mod p.long_mod :=
+  EPV.Blake.modKM_accepts_iff p
+
+/-- non-vacuity: the default material satisfies the documented predicate for the pair (λ, K) -/
+example : DocumentedPair .lame .bulk (25 : ℝ) (125 / 3) :=
+  (modLK_accepts_iff { lame_mod := 25, bulk_mod := 125 / 3 }).mp (by
+    simp only [epv_tree, epv_cond]; norm_num)
 
 end EPV.C20
